@@ -37,6 +37,7 @@ type bpCase struct {
 	block    string // match | otherhash | otherheight | nil
 	mangle   string // "" | trunc | flip | random | empty
 	mangleAt int
+	excl     int // k > 0: member k-1 left the committee at the height of the block (its stand-in, id index n+1, took its place and weight)
 }
 
 func (c bpCase) desc() obj {
@@ -45,7 +46,7 @@ func (c bpCase) desc() obj {
 		sg = append(sg, obj{"idx": s.idx, "status": s.status})
 	}
 	return obj{"weights": c.weights, "signers": sg, "ht": int(c.ht), "inst": int(c.inst), "dh": c.dh, "hash": c.hashMode, "seed": c.seed, "prev": c.prev, "idshape": c.idShape,
-		"soft": c.soft, "block": c.block, "mangle": c.mangle, "at": c.mangleAt}
+		"soft": c.soft, "block": c.block, "mangle": c.mangle, "at": c.mangleAt, "excl": c.excl}
 }
 
 const bpHeight = 5
@@ -54,7 +55,7 @@ var bpCounter int
 
 func runBpCase(out *ndjson, c bpCase) {
 	clusterIdShape = c.idShape
-	cl := newCluster(c.weights, nil, 1, false)
+	cl := newCluster(c.weights, nil, 2, false)
 	clusterIdShape = 0
 	defer cl.close()
 	adv := newAdversary(cl)
@@ -69,6 +70,9 @@ func runBpCase(out *ndjson, c bpCase) {
 	prevBlock := &vBlock{height: bpHeight - 1, body: "prev"}
 	prevRef := prevBlock.ReferenceTime()
 	cl.prevRefGiven = &prevRef
+	if c.excl > 0 {
+		cl.exclIdx, cl.exclFrom = c.excl-1, bpHeight
+	}
 	prevProof := (&protocol.BlockProofBuilder{BlockRef: &protocol.BlockRefBuilder{MessageType: protocol.LEAN_HELIX_COMMIT, InstanceId: clusterInstance, BlockHeight: bpHeight - 1},
 		RandomSeedSignature: []byte("prev-seed-signature")}).Build().Raw()
 	otherPrev := (&protocol.BlockProofBuilder{BlockRef: &protocol.BlockRefBuilder{MessageType: protocol.LEAN_HELIX_COMMIT, InstanceId: clusterInstance, BlockHeight: bpHeight - 1},
@@ -161,6 +165,10 @@ func runBpCase(out *ndjson, c bpCase) {
 	case "nil":
 		givenPrev = nil
 	}
+	if blk != nil {
+		hGiven := uint64(blk.Height())
+		cl.heightGiven = &hGiven
+	}
 	result := "err"
 	func() {
 		defer func() {
@@ -218,6 +226,9 @@ func runBpCase(out *ndjson, c bpCase) {
 	for i := 0; i < cl.nMembers; i++ {
 		w[idName(i)] = int(cl.weights[i])
 	}
+	if c.excl > 0 && len(cl.ids) > cl.nMembers+1 {
+		w[cl.nameOf(cl.ids[cl.nMembers+1])] = int(cl.weights[cl.exclIdx])
+	}
 	coms := [][]string{}
 	for h := 0; h <= bpHeight+2; h++ {
 		coms = append(coms, cl.committeeNames(uint64(h)))
@@ -226,7 +237,7 @@ func runBpCase(out *ndjson, c bpCase) {
 	if c.soft {
 		mode = "soft"
 	}
-	out.emit(obj{"com": coms, "w": w, "proof": pa, "blk": blkAbs, "mode": mode, "result": result, "result_main": resultMain, "ids": ids, "canon": canon, "wrong_epoch": cl.wrongEpochAsked, "case": c.desc()})
+	out.emit(obj{"com": coms, "w": w, "proof": pa, "blk": blkAbs, "mode": mode, "result": result, "result_main": resultMain, "ids": ids, "canon": canon, "wrong_epoch": cl.wrongEpochAsked, "wrong_height": cl.wrongHeightAsked, "case": c.desc()})
 }
 
 func cmdBlockProof(args []string) int {
@@ -329,6 +340,34 @@ func cmdBlockProof(args []string) int {
 			}
 		}
 	}
+	// membership change at the height of the block: member k left, its stand-in (id index n+1) took its place and weight; every
+	// subset of the old and the new members signs (the leaver's genuine signature is not a member's signature any more)
+	for _, ws := range grids[:5] {
+		nm := len(ws)
+		if nm > 5 {
+			continue
+		}
+		for k := 1; k <= nm; k++ {
+			for mask := 0; mask < 1<<uint(nm+1); mask++ {
+				var sg []int
+				for i := 0; i <= nm; i++ {
+					if mask&(1<<uint(i)) != 0 {
+						if i == nm {
+							sg = append(sg, nm+1)
+						} else {
+							sg = append(sg, i)
+						}
+					}
+				}
+				for _, soft := range []bool{false, true} {
+					c := base(ws, sg)
+					c.excl = k
+					c.soft = soft
+					emit(c)
+				}
+			}
+		}
+	}
 	// random combinations of deviations
 	for i := 0; i < *nRand; i++ {
 		ws := grids[rnd.Intn(len(grids))]
@@ -371,6 +410,12 @@ func cmdBlockProof(args []string) int {
 		if rnd.Intn(6) == 0 {
 			c.prev = []string{"other", "nil"}[rnd.Intn(2)]
 		}
+		if rnd.Intn(4) == 0 {
+			c.excl = 1 + rnd.Intn(nm)
+			if rnd.Intn(2) == 0 {
+				c.signers = append(c.signers, bpSigner{nm + 1, "ok"})
+			}
+		}
 		emit(c)
 	}
 	// malformed encodings of an otherwise acceptable proof
@@ -388,7 +433,7 @@ func cmdBlockProof(args []string) int {
 
 func caseFromDesc(d map[string]interface{}) bpCase {
 	c := bpCase{ht: protocol.MessageType(int(d["ht"].(float64))), inst: primitives.InstanceId(int(d["inst"].(float64))), dh: int(d["dh"].(float64)),
-		hashMode: d["hash"].(string), seed: d["seed"].(string), prev: strOr(d["prev"]), idShape: intOr(d["idshape"]), soft: d["soft"].(bool), block: d["block"].(string), mangle: d["mangle"].(string), mangleAt: int(d["at"].(float64))}
+		hashMode: d["hash"].(string), seed: d["seed"].(string), prev: strOr(d["prev"]), idShape: intOr(d["idshape"]), soft: d["soft"].(bool), block: d["block"].(string), mangle: d["mangle"].(string), mangleAt: int(d["at"].(float64)), excl: intOr(d["excl"])}
 	for _, w := range d["weights"].([]interface{}) {
 		c.weights = append(c.weights, uint64(w.(float64)))
 	}
